@@ -41,6 +41,14 @@ class Scalar (K : Type) extends Add K, Sub K, Mul K, Div K, Neg K where
       generic formula, which is the default. -/
   so3LogJCoeff : K → K → K := fun theta2 theta =>
     ofNat 1 / theta2 - cos (theta / ofNat 2) / (ofNat 2 * theta * sin (theta / ofNat 2))
+  /-- `SGal3Tangent::fillE` (large-angle branch), from `θ²`: `θ = sqrt(θ²)`,
+      `A = (θ − sin θ)/θ²/θ`, `B = (θ² + 2 cos θ − 2)/(2 θ² θ²)`.  `fillE` calls `sqrt`, `sin`, `cos`
+      unqualified with no using-declaration: for `float` they resolve to the `double` overloads and
+      the usual arithmetic conversions evaluate the numerators (and the quotients) in double. -/
+  sgal3EAB : K → K × K := fun theta_sq =>
+    let theta := sqrt theta_sq
+    ((theta - sin theta) / theta_sq / theta,
+     (theta_sq + ofNat 2 * cos theta - ofNat 2) / (ofNat 2 * theta_sq * theta_sq))
 
 namespace Scalar
 variable {K : Type} [Scalar K]
@@ -85,6 +93,12 @@ instance : Scalar Float32 where
   lt a b := a < b
   le a b := a ≤ b
   eps := float32Eps
+  sgal3EAB theta_sq :=
+    let theta : Float32 := (Float.sqrt theta_sq.toFloat).toFloat32
+    let td := theta.toFloat
+    let sq := theta_sq.toFloat
+    (((td - Float.sin td) / sq / td).toFloat32,
+     ((sq + 2.0 * Float.cos td - 2.0) / (2 * theta_sq * theta_sq).toFloat).toFloat32)
   cosUnq x := (Float.cos x.toFloat).toFloat32
   sinUnq x := (Float.sin x.toFloat).toFloat32
   so3LogJCoeff theta2 theta :=
